@@ -15,14 +15,15 @@ def run(pid, tier, replay=None):
         "coefficient generators: alpha = f(fc, ts) judged on order-preserving codes of the doubles for fc*ts = 10^e, e = -20..20 (strict interior required for |e| <= 12)",
     ]
     # (coefficient set, input set, highest order, history length): thorough = wider sets at order <= 2, and order 3 over the quick sets
-    runs = [("CoefsQ", "InputsQ", 2, 4)] if q else [("CoefsT", "InputsT", 2, 4), ("CoefsQ", "InputsQ", 3, 5)]
+    runs = [("CoefsQ", "InputsQ", 2, 4, "Init"), ("CoefsQ", "InputsBig", 17, 7 if q else 10, "InitBig")] if q else \
+           [("CoefsT", "InputsT", 2, 4, "Init"), ("CoefsQ", "InputsQ", 3, 5, "Init"), ("CoefsQ", "InputsBig", 17, 10, "InitBig")]
     out = sc.path("filt.out")
     open(out, "w").close()
 
     def one(item):
-        i, (cs, ins, mo, hl) = item
+        i, (cs, ins, mo, hl, init) = item
         consts = ["CONSTANTS Coefs <- %s" % cs, " Inputs <- %s" % ins, " MaxOrder = %d" % mo, " HistLen = %d" % hl, " Alphas = {0, 1, 3, 4, 7, 8}"]
-        cfg = vlib.write_cfg(sc.path("filt%d.cfg" % i), consts + ["INIT Init", "NEXT Next", "INVARIANT Inv", "INVARIANT FiltInv", "ACTION_CONSTRAINT Emit", "CHECK_DEADLOCK FALSE"])
+        cfg = vlib.write_cfg(sc.path("filt%d.cfg" % i), consts + ["INIT %s" % init, "NEXT Next", "INVARIANT Inv", "INVARIANT FiltInv", "ACTION_CONSTRAINT Emit", "CHECK_DEADLOCK FALSE"])
         o = sc.path("filt%d.out" % i)
         res = tlc(os.path.join(SPECDIR, "FiltersMC.tla"), cfg, sc, timeout=3000, heap="12g", capture_prefix="9090909", stdout_path=o, workers=8, tag="r%d" % i)
         tlc_must_pass(res, "FiltersMC run %d" % i)
